@@ -173,7 +173,9 @@ def parse_graphic_sequence(
                 current_set.append(items[idx])
             left_in_set -= 1
             if left_in_set <= 0:
-                output.append(AnsiSetting(current_set))
+                setting = AnsiSetting(current_set)
+                if add_erroneous or setting.parsable or current_set == [AnsiParam.RESET.value]:
+                    output.append(setting)
                 current_set = []
         elif add_erroneous:
             output.append(AnsiSetting(value))
